@@ -204,7 +204,13 @@ fn gen_db(rng: &mut Rng, addrs: &[Address], codes: &[Bytecode], f15: bool) -> Un
         match kind {
             0 => {}
             1 => db.insert_account_info(*a, info_with(U256::ZERO, 0, None, rng.chance(1, 2))),
-            2 => db.insert_account_info(*a, info_with(small_val(rng) + U256::from(1), if rng.chance(1, 2) { 0 } else { rng.below(3) }, None, rng.chance(1, 2))),
+            2 => {
+                let nonce = if rng.chance(1, 2) { 0 } else { rng.below(3) };
+                db.insert_account_info(*a, info_with(small_val(rng) + U256::from(1), nonce, None, rng.chance(1, 2)));
+                // no code but a nonce, and storage in the database (an account whose constructor wrote storage and
+                // returned empty code, or an EOA that ran delegated code): not the F15 class, its storage must stay readable
+                if nonce > 0 && rng.chance(1, 2) { for _ in 0..rng.range(1, 3) { db.insert_account_storage(*a, slot_key(rng), small_val(rng) + U256::from(1)).unwrap(); } }
+            }
             3 | 4 => {
                 let c = rng.pick(codes).clone();
                 db.insert_account_info(*a, info_with(small_val(rng), rng.below(3), Some(&c), rng.chance(1, 2)));
